@@ -19,6 +19,8 @@ type c19 struct{}
 
 func init() { engine.Register(c19{}) }
 
+func (c19) PostGenerate(r *engine.Rand, sc *engine.Scenario) { chooseEnv(r, sc) }
+
 func (c19) ID() string { return "C19" }
 
 func (c19) Budget(tier string) int {
@@ -169,7 +171,7 @@ func (c19) Execute(sc *engine.Scenario) *engine.Result {
 		return res
 	}
 	m.Write(0xff40, 0)
-	m.Park()
+	park(sc, m, res)
 	ref := dmgref.NewAPU()
 	ref.Power = true
 	write := func(a uint16, v uint8) {
